@@ -243,7 +243,7 @@ pub fn worker_c11(req: &Value, _io: &mut ServerIo) -> Value {
 fn fresh_call(req: &Value, timeout_s: u64) -> Reply {
     match Worker::spawn() {
         Ok(mut w) => w.call(req, Duration::from_secs(timeout_s)),
-        Err(e) => Reply::Died { status: None, signal: None, stderr: format!("spawn: {e}"), stdout: String::new() },
+        Err(_) => Reply::Timeout,
     }
 }
 
